@@ -38,6 +38,13 @@ def _base_names():
     for a in 'bcdfgjklmnpqrtvwz':
         for b in ('ab', 'ix', 'oz', 'u7', 'ek9'):
             out.append(a + b)
+    # identifiers that merely begin with a keyword
+    for k in ('rem', 'end', 'for', 'if', 'to', 'next', 'or', 'and', 'not',
+              'mod', 'let', 'dim', 'call', 'sub', 'as', 'then', 'else',
+              'goto', 'data', 'print', 'input', 'do', 'loop', 'case', 'on',
+              'read', 'step', 'type', 'len', 'int', 'abs', 'str', 'val'):
+        out.append(k + 'v')
+        out.append(k + 'q2')
     kws = keywords()
     bases = {k.rstrip('$') for k in kws}
     return [n for n in out if n not in bases]
@@ -1579,6 +1586,10 @@ class Gen:
                 as_clause = self.chance(0.4)
                 pb = self.fresh_base()
                 pname = pb if as_clause else pb + t
+                if not as_clause and self.default_type_of(pb) == t and \
+                        self.chance(0.5):
+                    pname = pb       # neither AS nor a type suffix
+                    self.note('plain_param')
                 params.append(A.Param(pname, t, is_arr, as_clause))
             rt = None
             name = base
